@@ -4032,3 +4032,99 @@ func ruleConsoleWriterWithoutTime(c *core.Ctx) {
 		c.Undecided(rule, "anchor/zerolog.ConsoleWriter", 0, "no ConsoleWriter literal found in the module")
 	}
 }
+
+// B5 (C17): how much is left is read off the block counter. The emitted binary batch reader
+// Read…Impl(std::vector<T>& values) ends with `return current_block_remaining_ != 0;`: ReadBlocksIntoVector leaves the
+// counter at zero exactly when it has consumed the end-of-stream marker (rule SR4), and that — not how full the vector
+// got — tells the caller whether another batch follows. A capacity-based answer is wrong whenever the last item lands
+// on a full batch.
+func ruleBatchReadReportsCounter(c *core.Ctx) {
+	const rule = "B5"
+	c.Rule(rule, "cpp/binary: the emitted batch reader of a stream step (…Impl(std::vector<T>& values)) returns a comparison of current_block_remaining_ with 0", 1)
+	rows, d := flatRows(c, "internal/cpp/binary", "writeProtocolMethods")
+	if d == nil {
+		c.Undecided(rule, "anchor/cpp/binary.writeProtocolMethods", 0, "anchor not found")
+		return
+	}
+	norm := func(t string) string {
+		if i := strings.Index(t, "//"); i >= 0 {
+			t = t[:i]
+		}
+		return strings.Join(strings.Fields(t), "")
+	}
+	n := 0
+	// the emitted methods: from one function header to the next, helpers included
+	var emits []gee.Row
+	for _, r := range rows {
+		if r.Kind == "emit" {
+			emits = append(emits, r)
+		}
+	}
+	var groups [][]gee.Row
+	start := -1
+	isHeader := func(t string) bool {
+		t = strings.TrimSpace(t)
+		return methodHeaderRe.MatchString(t) && strings.Contains(t, "::") && !strings.HasPrefix(t, "if") && !strings.HasPrefix(t, "for") && !strings.HasPrefix(t, "while") && !strings.HasPrefix(t, "switch")
+	}
+	for i, r := range emits {
+		if isHeader(r.Tmpl) {
+			if start >= 0 {
+				groups = append(groups, emits[start:i])
+			}
+			start = i
+		}
+	}
+	if start >= 0 {
+		groups = append(groups, emits[start:])
+	}
+	for _, m := range groups {
+		hdr := m[0]
+		if !strings.Contains(hdr.Tmpl, "std::vector<%s>& values)") || !strings.Contains(hdr.Tmpl, "{") {
+			continue
+		}
+		isImpl := false
+		for _, a := range hdr.Args {
+			if strings.Contains(a, "ProtocolReadImplMethodName(") {
+				isImpl = true
+			}
+		}
+		if !isImpl {
+			continue
+		}
+		n++
+		var rets []gee.Row
+		for _, r := range m[1:] {
+			if strings.HasPrefix(norm(r.Tmpl), "return") {
+				// rows of helpers that cannot run in the batch (plural) context: their guards are false under it
+				if sat, _ := guardSat(mapStrings(r.Guards, stripDsl), map[string]string{"isPlural": "true", "true": "true", "false": "false", "write": "false"}); !sat {
+					continue
+				}
+				rets = append(rets, r)
+			}
+		}
+		key := "writeProtocolMethods/batch reader/return"
+		if n > 1 {
+			key += "#" + itoa(n)
+		}
+		if len(rets) == 0 {
+			c.Bad(rule, key, hdr.Pos, "the emitted batch reader has no return statement: callers cannot tell whether the stream has ended")
+			continue
+		}
+		good := true
+		var at = rets[0].Pos
+		for _, r := range rets {
+			t := norm(r.Tmpl)
+			switch t {
+			case "returncurrent_block_remaining_!=0;", "return0!=current_block_remaining_;", "returncurrent_block_remaining_>0;", "return0<current_block_remaining_;", "return!(current_block_remaining_==0);":
+			default:
+				good = false
+				at = r.Pos
+			}
+		}
+		c.Check(good, rule, key, at, "returns whether the block counter is non-zero",
+			"the emitted batch reader does not answer `more items?` from current_block_remaining_ (`"+strings.TrimSpace(rets[len(rets)-1].Tmpl)+"`): when the last item of the stream fills the batch exactly the terminator has been consumed but the caller is told to read on — the next step's bytes are read as a block length")
+	}
+	if n == 0 {
+		c.Undecided(rule, "anchor/batch reader", d.Pos(), "no emitted …Impl(std::vector<T>& values) method found")
+	}
+}
